@@ -34,6 +34,13 @@ UUID_KEY_PREFIXES = ()  # no exemptions: anything unstable is reported
 
 def names_record(case):
     """Everything name-like a program produces: per stage the node names and the graph key set."""
+    from mc.env import dask
+
+    with dask.config.set({"dataframe.shuffle.method": case.get("method", "tasks")}):
+        return _names_record(case)
+
+
+def _names_record(case):
     src = tables.source(case["src"])
     q = O.build(src, case["ops"])
     rec = {}
@@ -321,6 +328,9 @@ def run(ctx):
                 okcases.append({"src": case["src"], "ops": case["ops"]})
             if r["status"] == "ok" and len(case["ops"]) == len(tiers):
                 ctx.sample(explore.prog_key(case), cap=10)
+    # the default (disk) shuffle method on a handful of shuffle-bearing programs
+    disk_cases = [{"src": "T:2", "ops": ops, "method": "disk", "vary": False} for ops in (["shuffle_a"], ["sort_u"], ["set_index_u"], ["merge_T2_inner"], ["dropdup"], ["gb_a_sum_so2"])]
+    ctx.map(evaluate, disk_cases, chunk=2)
     ctx.cov["distinct_names"] = len(global_pairs)
     ctx.cov["operand_variations"] = nvar
     for case, other, name in collisions[:50]:
